@@ -1,12 +1,14 @@
 import concurrent.futures as cf
 import json, os
-from props_common import TRUSTED_COMMON
+from props_common import GEN_ITERS_TRUST, TRUSTED_COMMON
 import props_common
 
 PROP = {
-    "lean_targets": ["MultiProofs.C17"],
+    "generators": [{"script": "gen_iters.py"}],
+    "lean_targets": ["MultiProofs.C17", "MultiProofs.GenTieIter"],
     "lean_module": "MultiProofs.C17",
     "theorems": [
+        "Multi.GenTieIter.X_eq_tie",
         "Multi.C17.save_tokens",
         "Multi.C17.roundtrip",
         "Multi.C17.codec_lawful",
@@ -21,7 +23,7 @@ PROP = {
     ],
     "harnesses": [{"name": "serial", "src": "serial.cpp", "flags": ["-O1", "-g"], "libs": ["-lboost_serialization"], "modes": ["zero", "rebased"],
                    "driver": "mmdrv_sermpi", "programs": {"quick": 16000, "thorough": 640000}}],
-    "trusted_base": TRUSTED_COMMON + [
+    "trusted_base": TRUSTED_COMMON + GEN_ITERS_TRUST + [
         "Boost.Serialization 1.83: an nvp is its value, make_array(p, n) is the n items in order, a text archive prints one token per arithmetic value and `length chars` per string; "
         "the two class-information tokens at the first occurrence of a class type are removed structurally by the harness",
     ],
